@@ -48,11 +48,14 @@ func twinCheck(c *Ctx, f, g *ssa.Function, mu *Mu) (ok bool, undecided bool, fac
 	if gf.Undecided != "" || gg.Undecided != "" {
 		return false, true, "normal form not built: " + gf.Undecided + gg.Undecided
 	}
-	var mapped []*GC
+	var mapped, other []*GC
 	for _, x := range gf.GCs {
-		mapped = append(mapped, mu.applyGC(x))
+		mapped = append(mapped, canonAllocs(mu.applyGC(x)))
 	}
-	a, b := compareGCSets(gcStrings(mapped), gcStrings(gg.GCs))
+	for _, x := range gg.GCs {
+		other = append(other, canonAllocs(x))
+	}
+	a, b := compareGCSets(gcStrings(mapped), gcStrings(other))
 	if len(a) == 0 && len(b) == 0 {
 		return true, false, fmt.Sprintf("%d guarded commands on each side are equal modulo μ (%d+%d paths)", len(gg.GCs), gf.NumPaths, gg.NumPaths)
 	}
@@ -125,7 +128,8 @@ func selfCheck(c *Ctx, f *ssa.Function, mu *Mu, orientedOnly bool) (ok bool, und
 	classes := map[string][]*GC{}
 	var order []string
 	n := 0
-	for _, x := range gf.GCs {
+	for _, x0 := range gf.GCs {
+		x := canonAllocs(x0)
 		if orientedOnly && !isOriented(x) {
 			continue
 		}
@@ -142,14 +146,14 @@ func selfCheck(c *Ctx, f *ssa.Function, mu *Mu, orientedOnly bool) (ok bool, und
 	nexact, nsub := 0, 0
 	for _, k := range order {
 		xs := classes[k]
-		mk := effectsExitString(mu.applyGC(xs[0]))
+		mk := effectsExitString(canonAllocs(mu.applyGC(xs[0])))
 		ys, ok := classes[mk]
 		if !ok {
 			return false, false, "the arms are not mirror images: the mirror image of these effects occurs nowhere in the function\n  command   : " + trunc(xs[0].String(), 700) + "\n  μ(effects): " + trunc(mk, 700)
 		}
 		matched := ""
 		for _, x := range xs {
-			mx := mu.applyGC(x)
+			mx := canonAllocs(mu.applyGC(x))
 			ms := mx.String()
 			pm := posAtoms(mx)
 			for _, y := range ys {
